@@ -56,6 +56,7 @@ class World:
         self.timer_budget = 50
         self.timers_fired = 0
         self.cancel_budget = 1
+        self.late_timers = []          # trace positions of timer events that were chosen ahead of an enabled run / delivery / start
 
     def channels(self):
         return []
@@ -126,6 +127,8 @@ def execute(make_world, chooser, trace=False):
                 loop.run_batch()
                 after_timer = False
             elif fn == "TIMER":
+                if k != 0:                 # the timer overtook something that was enabled (a deviation)
+                    w.late_timers.append(len(w.trace) - 1)
                 loop.fire_timers()
                 w.timers_fired += 1
                 after_timer = True
